@@ -259,11 +259,14 @@ pub struct Spec {
     pub bidir: bool,
     pub cancels: bool,
     pub small_buffers: bool,
+    /// 0 = off; K > 0: one send (free choice which) is abandoned after k sender polls, for every
+    /// k in 0..K - cancellation points far into a long send, beyond the scheduled slots
+    pub abandon_within: usize,
 }
 
 impl Spec {
     pub fn to_json(&self) -> Value {
-        json!({"rt": format!("{:?}", self.rt), "sizes": self.sizes, "max_msgs": self.max_msgs, "slots": self.slots, "bidir": self.bidir, "cancels": self.cancels, "small_buffers": self.small_buffers})
+        json!({"rt": format!("{:?}", self.rt), "sizes": self.sizes, "max_msgs": self.max_msgs, "slots": self.slots, "bidir": self.bidir, "cancels": self.cancels, "small_buffers": self.small_buffers, "abandon_within": self.abandon_within})
     }
     pub fn from_json(v: &Value) -> Option<Spec> {
         Some(Spec {
@@ -274,6 +277,7 @@ impl Spec {
             bidir: v["bidir"].as_bool()?,
             cancels: v["cancels"].as_bool()?,
             small_buffers: v["small_buffers"].as_bool()?,
+            abandon_within: v["abandon_within"].as_u64().unwrap_or(0) as usize,
         })
     }
 }
@@ -282,6 +286,9 @@ fn run_with<R: Rt>(spec: &Spec, cx: &Ctx) -> Verdict {
     let rt = R::new();
     let n = 1 + cx.choose(spec.max_msgs, "messages-1");
     let sizes: Vec<usize> = (0..n).map(|_| spec.sizes[cx.choose(spec.sizes.len(), "size")]).collect();
+    // (message, number of sender polls after which its pending send is abandoned)
+    let abandon: Option<(usize, usize)> = if spec.abandon_within > 0 { Some((cx.choose(n, "abandon:which-message"), cx.choose(spec.abandon_within, "abandon:after-k-sender-polls"))) } else { None };
+    let mut polls_of_victim = 0usize;
     let (sa, sb) = small_pair(spec.small_buffers);
     let conn_a: Connection<R::Sock> = Connection::new(rt.wrap(sa));
     let conn_b: Connection<R::Sock> = Connection::new(rt.wrap(sb));
@@ -337,6 +344,20 @@ fn run_with<R: Rt>(spec: &Spec, cx: &Ctx) -> Verdict {
         if action < 2 * nl {
             let l = action / 2;
             if action % 2 == 0 {
+                if let (Some((victim, k)), 0) = (abandon, l) {
+                    let sending_victim = matches!(&lanes[0].sending, Some((m, _)) if *m == victim);
+                    if sending_victim && polls_of_victim >= k {
+                        if lanes[0].cancel_send(cx) {
+                            cx.goal("send-abandoned-while-pending");
+                        }
+                        polls_of_victim = usize::MAX / 2;
+                        rt.turn();
+                        continue;
+                    }
+                    if sending_victim || (lanes[0].sending.is_none() && lanes[0].next == victim) {
+                        polls_of_victim += 1;
+                    }
+                }
                 if lanes[l].sender_active() {
                     lanes[l].poll_send(cx);
                 } else {
